@@ -829,7 +829,7 @@ func (h *harness) finishTraffic(q *trafficReq) {
 		}
 	case 'x': // invalid parameter
 		if status != 400 {
-			what = fmt.Sprintf("traffic_%s has a component without a cycle duration and must be refused (400), answered %d", in.Pattern, status)
+			what = fmt.Sprintf("traffic_%s with %s: no such pattern (or a component without a cycle duration), must be refused (400), answered %d", in.Pattern, in.SegPart, status)
 		}
 	case 0: // no bu element: answered as without the parameter
 		if status != basePlain.Status || !basePlain.sameBody(q.resp.Body) {
@@ -917,6 +917,8 @@ func (h *harness) trafficSweep(a *lib.TLAsset) {
 	}{
 		{"u1d1", "", 0, 0, "ok"}, {"d5", "", 0, 0, "ok"}, {"u1d1,d1u1", "bux/", 0, 0, "ok"},
 		{"u1d1,d1u1", "bu01/", 1, '?', "ok"}, {"u1d1,d1u1", "bu00/", 0, '?', "ok"},
+		// a BaseURL number the MPD does not offer: refused
+		{"u1d1,d1u1", "bu2/", 2, 'x', "ok"}, {"u10", "bu9/", 9, 'x', "ok"},
 		// a component without a cycle duration: the whole parameter is invalid, every request is refused
 		{"u10,", "bu1/", 1, 'x', "empty-pattern"}, {"12", "bu0/", 0, 'x', "empty-pattern"}, {"u10,,d3", "bu1/", 1, 'x', "empty-pattern"},
 		{",u3", "bu0/", 0, 'x', "empty-pattern"}, {"u10,", "bu0/", 0, 'x', "empty-pattern"}, {"u0", "bu0/", 0, 'x', "empty-pattern"},
@@ -1237,7 +1239,7 @@ func (h *harness) replay(in c14in, assets []*lib.TLAsset) {
 		_, plain, strip, _ := h.trafficURL(a, r, in.Pattern, "", in.N, in.NowMS)
 		_ = plain
 		want := byte(0)
-		if !validTraffic(in.Pattern) {
+		if !validTraffic(in.Pattern) || strings.HasPrefix(in.SegPart, "/bu") && in.BU >= strings.Count(in.Pattern, ",")+1 {
 			want = 'x'
 		} else if parts := strings.Split(in.Pattern, ","); in.BU < len(parts) && strings.Contains(in.SegPart, "/bu") {
 			if fl := flatten(parsePat(parts[in.BU])); len(fl) > 0 {
